@@ -59,7 +59,7 @@ def check_stream_reassembly(ctx: Ctx, prefix: str) -> None:
         if len(loops) != 1 or unparse(loops[0].test) != f"len(self._buffer) < {n}":
             ob.violation(fr, loops[0] if loops else fr.node, f"read({n}) does not keep receiving while fewer than {n} characters are buffered")
     with ctx.obligation(f"{prefix}.c", "single-consumer") as ob:
-        writers = sorted({fi.short for fi in repo.funcs.values() for x in repo.own_nodes(fi)
+        writers = sorted({fi.short for fi in repo.scan_funcs() for x in repo.own_nodes(fi)
                           if isinstance(x, ast.Attribute) and x.attr == "_buffer" and isinstance(x.ctx, ast.Store) and fi.module.name == GB})
         ob.site(fr, None, "_buffer is written only by read() (and initialised in __init__)", writers=writers)
         if writers != ["ChannelFileRead.__init__", "ChannelFileRead.read"]:
